@@ -1,15 +1,15 @@
-# triage script (not a check): Secular.secularize(use_data=False) and the trace identity
+"""LindbladForm without a system-bath interaction: the tensor form must exist as the operator form does.
+run: cd /tmp && PYTHONPATH=/repo /venv/bin/python /verif/notes/repro/t01e.py"""
 import numpy, quantarhei as qr
-from quantarhei import TestAggregate
-from quantarhei.qm import RedfieldRelaxationTensor
-agg = TestAggregate("trimer-2-env"); agg.set_coupling_by_dipole_dipole(); agg.build()
-ham = agg.get_Hamiltonian(); sbi = agg.get_SystemBathInteraction()
-RT = RedfieldRelaxationTensor(ham, sbi)
-before = numpy.array(RT.data)
-print("trace defect before:", numpy.max(numpy.abs(numpy.einsum("aacd->cd", RT.data))))
-with qr.eigenbasis_of(ham):
-    RT.secularize(legacy=False) if False else None
-    from quantarhei.qm.liouvillespace.secular import Secular
-    Secular.secularize(RT, use_data=False)
-print("data changed by secularize(use_data=False):", numpy.max(numpy.abs(RT.data - before)))
-print("trace defect after :", numpy.max(numpy.abs(numpy.einsum("aacd->cd", RT.data))))
+from quantarhei.qm import LindbladForm
+H = qr.Hamiltonian(data=[[0.0, 0.1, 0.0], [0.1, 1.0, 0.2], [0.0, 0.2, 1.1]])
+bad = 0
+for kw in (dict(as_operators=True), dict(as_operators=False)):
+    try:
+        L = LindbladForm(H, None, **kw)
+        if kw["as_operators"]:
+            L.convert_2_tensor()
+        print(kw, "tensor form: max|R| =", numpy.max(numpy.abs(L.data)))
+    except Exception as e:
+        print(kw, "raised", repr(e)); bad += 1
+raise SystemExit(1 if bad else 0)
